@@ -88,7 +88,39 @@ func Scratch(prop string) string {
 		Fatalf("scratch: %v", err)
 	}
 	scratchDir = d
+	UsePrivateGoCache(d)
 	return d
+}
+
+// BaseCache is the Go build cache prepared by setup.sh (standard library
+// and fixed dependencies, with and without -race). Every invocation works on
+// a hard-linked private copy inside its scratch directory, so the thousands
+// of throw-away program packages it compiles never accumulate anywhere.
+func BaseCache() string { return filepath.Join(VerifDir, "bin", "gocache") }
+
+// UsePrivateGoCache points GOCACHE at a per-invocation copy of the base cache.
+func UsePrivateGoCache(scratch string) {
+	priv := filepath.Join(scratch, "gocache")
+	bc := BaseCache()
+	if st, err := os.Stat(bc); err == nil && st.IsDir() {
+		r := Cmd{Name: "cp", Args: []string{"-al", bc, priv}}.Run()
+		if r.Exit != 0 {
+			os.RemoveAll(priv)
+			Cmd{Name: "cp", Args: []string{"-a", bc, priv}}.Run()
+		}
+	}
+	os.MkdirAll(priv, 0o755)
+	os.Setenv("GOCACHE", priv)
+}
+
+// ResetPrivateGoCache drops everything compiled so far in this invocation
+// (called between batches: a batch's packages are never compiled again).
+func ResetPrivateGoCache() {
+	if scratchDir == "" {
+		return
+	}
+	os.RemoveAll(filepath.Join(scratchDir, "gocache"))
+	UsePrivateGoCache(scratchDir)
 }
 
 // Cleanup removes the scratch directory unless VERIF_KEEP is set.
